@@ -27,6 +27,24 @@ def main(argv):
     # acts as a state machine with a key (a validator, a key outside the set, none) and hands the real mirror timely, late,
     # duplicate and wrongly signed votes; model and implementation are compared step by step and the c05 monitor judges
     # the views and the round store the real mirror ends up with
-    mirrorlib.mirror_check(c, "C05", ["c05"], "C05 authenticity with the local validator's own votes", quick=(15, 45),
-                           thorough=(200, 50), extra=["-consumers"], prove=False)
+    cases, _crashes, results = mirrorlib.mirror_check(c, "C05", ["c05"], "C05 authenticity with the local validator's own votes",
+                                                      quick=(15, 45), thorough=(200, 50), extra=["-consumers"], prove=False)
+    # known finding local-ph-unchecked, re-observed on every run: the harness hands the real mirror, as the state machine's
+    # own proposal, a header whose block hash is wrong (witness of C05Act_local_ph_keeps_chain_invariant_refuted); the model
+    # files it unchecked, and where model and real mirror agree on that step's observation the real kernel filed it too
+    import re
+    unchecked = 0
+    for k in cases or []:
+        r = (results or {}).get(k["idx"])
+        if not r or r.get("corr") not in (None, "None"):
+            continue
+        for op, res, obs in k["steps"]:
+            if re.match(r"\(MAct \(MActPH \(mk_ph \(mk_hdr \S+ false ", op) or re.match(r"\(MActPH \(mk_ph \(mk_hdr \S+ false ", op):
+                unchecked += 1
+                if unchecked == 1:
+                    c.report("local-ph-unchecked", "the real kernel files the state machine's own proposed header although its block hash is wrong "
+                             "(no check of HandleProposedHeader applies to local actions)",
+                             {"batch_seed": k["batch_seed"], "batch_case": k["batch_idx"], "operation": op[:1200],
+                              "how": "bin/h_mirror -replay -consumers -seed %d -cases %d -ops 45" % (k["batch_seed"], k["batch_idx"] + 1)})
+    c.coverage["local_proposals_with_wrong_hash_filed"] = unchecked
     c.finish()
